@@ -16,6 +16,6 @@ PY
 python3 tools/coqproject.py
 ( cd coq && timeout 3000 make -f Makefile.coq -j16 -k 2>&1 | tail -40 )
 [ -f harness/Cargo.lock ] || cp /repo/Cargo.lock harness/Cargo.lock
-( cd harness && RUSTFLAGS="--cfg twenty_first_verif" cargo build --offline --profile release 2>&1 | tail -5 )
-( cd harness && RUSTFLAGS="--cfg twenty_first_verif" cargo build --offline --profile checked 2>&1 | tail -5 )
+( cd harness && RUSTFLAGS="--cfg twenty_first_verif" cargo build --offline --profile release --bins --keep-going 2>&1 | tail -5 )
+( cd harness && RUSTFLAGS="--cfg twenty_first_verif" cargo build --offline --profile checked --bins --keep-going 2>&1 | tail -5 )
 exit 0
